@@ -371,16 +371,22 @@ def make_env():
 def equiv_check(z3, chk, parsed, want, ids):
     """[] if And(parsed) (tracking literals existentially quantified) <=> And(want)."""
     bad = []
+
+    def cex():  # the assignment, without the tracking literals |<id>| of earlier parses
+        mdl = chk.model()
+        return ", ".join(f"{d.name()} = {mdl[d]}" for d in sorted(mdl.decls(), key=lambda d: d.name())
+                         if d.arity() == 0 and not (d.name().isdigit() or d.name().startswith("<")))[:400]
+
     P_, W_ = z3.And(*parsed) if parsed else z3.BoolVal(True), z3.And(*want) if want else z3.BoolVal(True)
     r1 = chk.check(P_, z3.Not(W_))
     if r1 == z3.sat:
-        bad.append(["query-weaker", str(chk.model())[:400]])
+        bad.append(["query-weaker", "satisfies the query, violates a constraint: " + cex()])
     elif r1 != z3.unsat:
         bad.append(["undecided", "query => constraints"])
     Pt = z3.substitute(P_, *[(z3.Bool(i), z3.BoolVal(True)) for i in ids]) if ids else P_
     r2 = chk.check(W_, z3.Not(Pt))
     if r2 == z3.sat:
-        bad.append(["query-stronger", str(chk.model())[:400]])
+        bad.append(["query-stronger", "satisfies every constraint, rejected by the query: " + cex()])
     elif r2 != z3.unsat:
         bad.append(["undecided", "constraints => query"])
     return bad
@@ -476,9 +482,29 @@ def impl_script(script):
         val += [(z3.Bool(i), z3.BoolVal(True)) for i in ids]
         return val
 
+    def refined_witness(refined, ids):
+        """A concrete assignment on which the refined file (its tracking literals existentially
+        quantified) and the path's constraints under the exact EVM reading disagree."""
+        R_ = z3.And(*refined) if refined else z3.BoolVal(True)
+        W_ = z3.substitute_funs(z3.And(*acc), *pairs_exact) if acc else z3.BoolVal(True)
+        for _ in range(8):
+            val = [(a, b) for a, b in valuation([]) ]
+            wv = z3.simplify(z3.substitute(z3.substitute_funs(W_, pair_exp), *val))
+            rv = z3.simplify(z3.substitute(z3.substitute_funs(R_, pair_exp), *val))  # over the tracking literals only
+            if not (z3.is_true(wv) or z3.is_false(wv)):
+                continue
+            r = chk.check(rv)
+            shown = [(str(a), str(b)[:70]) for a, b in val]
+            if r == z3.sat and z3.is_false(wv):
+                return ["refined-query-weaker", f"satisfies the refined query file (tracking literals { {d.name(): str(chk.model()[d]) for d in chk.model().decls() if d.name().isdigit()} }), violates the constraints: {shown}"]
+            if r == z3.unsat and z3.is_true(wv):
+                return ["refined-query-stronger", f"satisfies the constraints, rejected by the refined query file: {shown}"]
+        return None
+
     def refined_ok(plain, refined, ids):
         if len(plain) != len(refined):
-            return [["refined-length", f"{len(plain)} assertions before, {len(refined)} after refine"]]
+            w = refined_witness(refined, ids)
+            return [w or ["refined-length", f"{len(plain)} assertions before, {len(refined)} after refine"]]
         bad = []
         for i, (p_, r_) in enumerate(zip(plain, refined)):
             F = z3.substitute_funs(p_, *pairs_exact)
@@ -877,9 +903,13 @@ def run(rep, tier):
         marks.append((name, _time.time()))
         rep.coverage["timing_s"] = {b[0]: round(b[1] - a[1], 1) for a, b in zip(marks, marks[1:])}
 
+    perkind = {}
+
     def fail(kind, what, case, **kw):
+        # the report prints 8 failures, failing inputs first: keep room for the other kinds
         nfail[0] += 1
-        if nfail[0] <= 12:
+        perkind[kind] = perkind.get(kind, 0) + 1
+        if perkind[kind] <= (5 if kind == "failing-input" else 6):
             rep.fail(kind, what, case=case, **kw)
 
     # ---- translated rules (when the translator still understands solve.py)
